@@ -1468,7 +1468,16 @@ func (ro *RedisOutput) bisyncStartPoint(ctx context.Context, runIDs []string) (S
 			// Recovery may consume the first post-snapshot journal records to rebuild
 			// the durable frontier. Once that frontier is selected, those journal
 			// keys are stale and should not survive as residual metadata.
-			ro.cleanupRecoveredBisyncCommitRecords(cli, checkpointName, frontier, records)
+			// The journal is the only durable trace of the units after the stored snapshot:
+			// it may be dropped only once the rebuilt frontier itself has been saved,
+			// otherwise the next start rebuilds from the old snapshot and resumes earlier.
+			if len(records) > 0 {
+				if err := checkpoint.SaveBisyncFrontierSnapshot(cli, snapshotKey, frontier); err != nil {
+					ro.logger.Warnf("save rebuilt bisync frontier failed, keep commit records: checkpoint(%s), frontierSeq(%d), err(%v)", checkpointName, frontier.UnitSeq, err)
+				} else {
+					ro.cleanupRecoveredBisyncCommitRecords(cli, checkpointName, frontier, records)
+				}
+			}
 			ro.logger.Infof("bisync startpoint parallel selected: checkpoint(%s), start(%+v), seq(%d)", checkpointName, sp, frontier.UnitSeq)
 			return sp, frontier.UnitSeq, true, nil
 		}
